@@ -1,0 +1,56 @@
+//go:build verif
+
+package config
+
+import (
+	"context"
+	"time"
+
+	"github.com/cloudflare/pint/internal/checks"
+	"github.com/cloudflare/pint/internal/discovery"
+)
+
+// VerifInst describes one check instance as registered for an entry, before the match/enable filter.
+type VerifInst struct {
+	Check     checks.RuleChecker
+	Name      string
+	Tags      []string
+	Match     []Match
+	Ignore    []Match
+	RuleIndex int // index into cfg.Rules, -1 for built-in checks, -2 for the error check
+	Locked    bool
+}
+
+// VerifInstances returns the parsedRule list GetChecksForEntry builds for an entry.
+func VerifInstances(ctx context.Context, cfg *Config, gen *PrometheusGenerator, entry discovery.Entry) (out []VerifInst) {
+	defaultStates := defaultMatchStates(commandFromContext(ctx))
+	defaultMatch := []Match{{State: defaultStates}}
+	proms := gen.ServersForPath(entry.Path.Name)
+	conv := func(pr parsedRule, idx int) VerifInst {
+		return VerifInst{Check: pr.check, Name: pr.name, Tags: pr.tags, Match: pr.match, Ignore: pr.ignore, RuleIndex: idx, Locked: pr.locked}
+	}
+	if entry.PathError != nil || entry.Rule.Error.Err != nil {
+		check := checks.NewErrorCheck(entry)
+		return []VerifInst{conv(baseParsedRule(defaultMatch, check.Reporter(), check, nil), -2)}
+	}
+	for _, pr := range baseRules(proms, defaultMatch) {
+		out = append(out, conv(pr, -1))
+	}
+	for i, rule := range cfg.Rules {
+		for _, pr := range parseRule(rule, proms, defaultStates) {
+			out = append(out, conv(pr, i))
+		}
+	}
+	return out
+}
+
+// VerifStrictMatch is strictRegex(pattern).MatchString(subject).
+func VerifStrictMatch(pattern, subject string) bool {
+	return strictRegex(pattern).MatchString(subject)
+}
+
+// VerifParseDurationMatch exposes parseDurationMatch.
+func VerifParseDurationMatch(expr string) (op string, dur time.Duration, err error) {
+	dm, err := parseDurationMatch(expr)
+	return string(dm.op), dm.dur, err
+}
